@@ -126,6 +126,8 @@ type probe struct {
 	failErr    error
 	// sendGate, if non-nil, is received from before each SendMsg proceeds (slow Send)
 	sendGate chan struct{}
+	// onSend, if non-nil, sees every message the client hands to the stream (before the gate)
+	onSend func(m any)
 }
 
 func newProbe() *probe {
@@ -143,6 +145,9 @@ type probedStream struct {
 func (s *probedStream) SendMsg(m any) error {
 	n := s.p.sendEntered.Add(1) - 1
 	defer s.p.sendReturned.Add(1)
+	if s.p.onSend != nil {
+		s.p.onSend(m)
+	}
 	if s.p.sendGate != nil {
 		<-s.p.sendGate
 	}
